@@ -38,7 +38,7 @@ RefDatagram(b)   == LET r == DecDatagram(D0, b) IN
                     ELSE [ok |-> FALSE, out |-> << >>, panic |-> FALSE, slow |-> FALSE, alloc |-> 0]
 
 \* ExtendedReport.Marshal fills in its blocks' header fields (documented), which String prints
-ContainsXR(v) == IF IsList(v) THEN \E i \in 1..Len(v.pkts) : v.pkts[i].k = "XR" ELSE v.k = "XR"
+ContainsXR(v) == IF IsList(v) THEN \E i \in 1..Len(Pk(v)) : Pk(v)[i].k = "XR" ELSE v.k = "XR"
 
 RemarshalStable(D, k, src) ==
   IF k = "CP" THEN FALSE
